@@ -106,6 +106,12 @@ def run_case(desc):
         U = None
         clf = streams.stub_clf()
     chunks = streams.chunking(rng, n, desc["chunking"])
+    # budget managers only, every third case: the budget is LOWERED through set_params at a chunk boundary near the middle;
+    # from there on the bound must hold with the new budget (counting from the switch), the first part is judged with the old one
+    switch_at, b2 = None, None
+    if is_bm and (desc["seed"] >> 19) % 3 == 0 and len(chunks) >= 2:
+        switch_at = chunks[len(chunks) // 2][0]
+        b2 = max(0.01, round(b * float(rng.choice([0.1, 0.25, 0.5])), 4))
     granted = np.zeros(n, dtype=int)
     viol = []
     comp = name
@@ -115,6 +121,9 @@ def run_case(desc):
     viol_kinds = {}
     for a, c_end in chunks:
         cand = X[a:c_end]
+        if switch_at is not None and a == switch_at:
+            obj.set_params(budget=b2)
+            contracts.count("C04.budget-lowered-by-set_params")
         try:
             steps.begin()
             if is_bm:
@@ -165,7 +174,8 @@ def run_case(desc):
             ut = float(bm.u_t_)
             max_ut = max(max_ut, ut)
             wv = getattr(bm, "w", w)
-            if ut > bm.budget_ * wv + 1 + 1e-9 and not viol:
+            # (after the budget was lowered the estimate may still sit above the new guard and only decays)
+            if ut > bm.budget_ * wv + 1 + 1e-9 and not viol and not (switch_at is not None and a >= switch_at):
                 viol.append({"component": comp, "kind": "u_t-above-guard", "trigger": "any",
                              "detail": "after instance %d: u_t_=%.4f > budget*w+1=%.4f" % (c_end, ut, bm.budget_ * wv + 1)})
         elif kind != "zl":
@@ -177,8 +187,22 @@ def run_case(desc):
     w_eff = getattr(bm, "w", w) if bm is not None else w
     b_eff = getattr(bm, "budget_", b) if bm is not None else getattr(obj, "budget_", b)
     limit = bound(kind, b_eff, w_eff, ns)
+    if switch_at is not None:
+        m = switch_at
+        limit = bound(kind, b, w_eff, ns)                     # first part: the budget the manager was built with
+        tail = cum[m:] - (cum[m - 1] if m > 0 else 0)
+        lim2 = bound(kind, b2, w_eff, np.arange(1, n - m + 1))
+        over2 = np.flatnonzero(tail > lim2 + 1e-9)
+        if len(over2):
+            i = int(over2[0])
+            viol.append({"component": comp, "kind": "budget-exceeded-after-lowering-it-by-set_params", "trigger": "any",
+                         "detail": "budget %s -> %s at instance %d: %d labels granted among the next %d instances > bound %.3f (w=%s, chunking=%s, stream=%s)" % (
+                             b, b2, m, tail[i], i + 1, lim2[i], w_eff, desc["chunking"], desc["stream"])})
+        cum_chk, limit_chk = cum[:m], limit[:m]
+    else:
+        cum_chk, limit_chk = cum, limit
     contracts.count("C04.prefix-bound-checker", n)
-    over = np.flatnonzero(cum > limit + 1e-9)
+    over = np.flatnonzero(cum_chk > limit_chk + 1e-9)
     if len(over):
         i = int(over[0])
         viol.append({"component": comp, "kind": "budget-exceeded", "trigger": "any",
@@ -189,7 +213,7 @@ def run_case(desc):
     would_exceed = bool((ns > limit).any())
     nontrivial = would_exceed and refused > 0
     return {"status": "ok", "violations": viol, "nontrivial": bool(nontrivial),
-            "nt_key": "%s|b%s|w%s|%s|%s" % (name, b, w, desc["chunking"], desc["stream"]),
+            "nt_key": "%s|b%s|w%s|%s|%s|%s" % (name, b, w, desc["chunking"], desc["stream"], b2),
             "cells": ["%s|%s" % (desc["family"], name)], "monitors": contracts.drain_evals(),
             "counters": {"instances": n, "granted": int(cum[-1]), "refused": int(refused)},
             "maxima": {"max_u_t": max_ut},
